@@ -1,6 +1,8 @@
 // vtrans — translator from the side-effect-free int64 kernels of the Go library to Gallina over Z.
 //
-//	vtrans -repo <tree> -out <Generated.v>
+//	vtrans -repo <tree> -out <Generated.v> [-outf <GeneratedF.v>]
+//
+// The float64 kernels (float.go) go to the second file, module SIDGen.GeneratedF, on Coq primitive floats.
 //
 // It reads the Go source of <tree> (go/parser + go/ast only, no type checker, no build), and writes a Coq file
 // (module SIDGen.Generated) with
@@ -103,6 +105,7 @@ type pkgInfo struct {
 	fileOf map[*ast.FuncDecl]int
 	consts map[string]*constDecl
 	types  map[string]*ast.TypeSpec
+	vars   map[string]*constDecl // package-level variables with an initialiser (float mode: usable when never assigned)
 }
 
 type constDecl struct {
@@ -126,6 +129,13 @@ type translator struct {
 	sigs       map[string]*sig   // key pkg|recv|name
 	inProgress map[string]bool
 	hints      []string
+
+	// float file (float.go)
+	fused    map[string]bool
+	fglobals map[string]string
+	ffuncs   []string
+	fsigs    map[string]*sig
+	fhints   []string
 }
 
 func recvTypeName(fd *ast.FuncDecl) string {
@@ -151,7 +161,7 @@ func (t *translator) load(dir string) *pkgInfo {
 	if err != nil {
 		failf("package %s: cannot read directory: %v", dir, err)
 	}
-	p := &pkgInfo{dir: dir, funcs: map[string][]*ast.FuncDecl{}, fileOf: map[*ast.FuncDecl]int{}, consts: map[string]*constDecl{}, types: map[string]*ast.TypeSpec{}}
+	p := &pkgInfo{dir: dir, funcs: map[string][]*ast.FuncDecl{}, fileOf: map[*ast.FuncDecl]int{}, consts: map[string]*constDecl{}, types: map[string]*ast.TypeSpec{}, vars: map[string]*constDecl{}}
 	var fns []string
 	for _, e := range ents {
 		n := e.Name()
@@ -206,6 +216,17 @@ func (t *translator) load(dir string) *pkgInfo {
 						ts := s.(*ast.TypeSpec)
 						p.types[ts.Name.Name] = ts
 					}
+				case token.VAR:
+					for _, s := range x.Specs {
+						vs := s.(*ast.ValueSpec)
+						for i, nm := range vs.Names {
+							if len(vs.Values) == len(vs.Names) {
+								p.vars[nm.Name] = &constDecl{name: nm.Name, typ: vs.Type, expr: vs.Values[i], file: idx}
+							} else {
+								p.vars[nm.Name] = &constDecl{name: nm.Name, typ: vs.Type, file: idx}
+							}
+						}
+					}
 				}
 			}
 		}
@@ -259,12 +280,17 @@ const (
 	kErr    // Go `error`, translated to bool (true = non-nil)
 	kStruct // struct whose fields are all int64; translated to a tuple in field order
 	kOpaque // a value the translation ignores (empty slice the result loop appends to); any use is an error
+	// float mode only (float.go)
+	kF       // float64 = Coq primitive float
+	kOptZ    // int64(f) of a float64 = F64.Ztrunc_f f : option Z; can be bound and returned, not computed with
+	kUntyped // an untyped constant (never the type of a variable)
 )
 
 type typ struct {
 	k      kind
 	name   string   // struct name
 	fields []string // struct fields
+	ftypes []typ    // float mode: types of the fields (nil: all int64)
 }
 
 func (a typ) String() string {
@@ -277,6 +303,12 @@ func (a typ) String() string {
 		return "error"
 	case kStruct:
 		return "struct " + a.name
+	case kF:
+		return "float64"
+	case kOptZ:
+		return "int64 converted from a float64"
+	case kUntyped:
+		return "untyped constant"
 	}
 	return "opaque"
 }
@@ -289,10 +321,14 @@ func (a typ) coq() string {
 		return "bool"
 	case kStruct:
 		var s []string
-		for range a.fields {
-			s = append(s, "Z")
+		for i := range a.fields {
+			s = append(s, a.fieldType(i).coq())
 		}
 		return "(" + strings.Join(s, " * ") + ")%type"
+	case kF:
+		return "float"
+	case kOptZ:
+		return "(option Z)"
 	}
 	return "?"
 }
@@ -303,8 +339,17 @@ func (a typ) zero() string {
 		return "0"
 	case kBool, kErr:
 		return "false"
+	case kF:
+		return fzero
 	}
 	return "?"
+}
+
+func (a typ) fieldType(i int) typ {
+	if a.ftypes == nil {
+		return typ{k: kZ}
+	}
+	return a.ftypes[i]
 }
 
 func same(a, b typ) bool { return a.k == b.k && a.name == b.name }
@@ -313,6 +358,8 @@ type sig struct {
 	coq     string
 	params  []typ // flattened: a struct receiver contributes one Z per field
 	results []typ
+	libm    bool // float mode: the definition takes the record of libm functions as its first argument
+	nrecv   int  // float mode: number of leading parameters that are receiver fields (not passed by a plain call)
 }
 
 type varInfo struct {
@@ -351,6 +398,11 @@ type fctx struct {
 	nameCnt map[string]int
 	prefix  bool
 	body    *ast.BlockStmt
+	// float mode (float.go)
+	fmode   bool
+	partial bool     // the definition is a slice or a loop body: no return statement is translated
+	libm    bool     // a libm function (or a callee that takes the record) is used
+	recvOut []string // pointer receiver: Coq names of its fields, returned in front of the results
 }
 
 func (c *fctx) fail(n ast.Node, format string, a ...interface{}) {
@@ -398,8 +450,14 @@ func (c *fctx) goType(e ast.Expr) typ {
 		case "error":
 			return typ{k: kErr}
 		}
+		if c.fmode && x.Name == "float64" {
+			return typ{k: kF}
+		}
 		if ts, ok := c.pkg.types[x.Name]; ok {
 			if st, ok := ts.Type.(*ast.StructType); ok {
+				if c.fmode {
+					return c.fstructType(c.pkg, x.Name, st, e)
+				}
 				r := typ{k: kStruct, name: x.Name}
 				for _, f := range st.Fields.List {
 					ft, ok := f.Type.(*ast.Ident)
@@ -413,6 +471,17 @@ func (c *fctx) goType(e ast.Expr) typ {
 				return r
 			}
 		}
+	case *ast.SelectorExpr:
+		if c.fmode {
+			if dir, ok := c.pkgOf(nil, x.X); ok && !strings.HasPrefix(dir, "\x00") {
+				p := c.t.load(dir)
+				if ts, ok := p.types[x.Sel.Name]; ok {
+					if st, ok := ts.Type.(*ast.StructType); ok {
+						return c.fstructType(p, x.Sel.Name, st, e)
+					}
+				}
+			}
+		}
 	case *ast.StarExpr:
 		t := c.goType(x.X)
 		if t.k == kStruct {
@@ -420,6 +489,9 @@ func (c *fctx) goType(e ast.Expr) typ {
 		}
 	case *ast.ParenExpr:
 		return c.goType(x.X)
+	}
+	if c.fmode {
+		c.fail(e, "type %s (supported: int64, float64, bool, error, structs of int64/float64 fields)", exprString(e))
 	}
 	c.fail(e, "type %s (supported: int64, bool, error, structs of int64 fields)", exprString(e))
 	return typ{}
@@ -574,6 +646,9 @@ func (c *fctx) shiftCount(sc *scope, e ast.Expr) (string, typ) {
 }
 
 func (c *fctx) binary(n ast.Node, op token.Token, a string, ta typ, b string, tb typ) (string, typ) {
+	if ta.k == kF || tb.k == kF {
+		return c.fbinary(n, op, a, ta, b, tb)
+	}
 	if f, ok := arith[op]; ok {
 		if ta.k != kZ || tb.k != kZ {
 			c.fail(n, "operator %s on %s and %s", op, ta, tb)
@@ -613,6 +688,9 @@ func (c *fctx) binary(n ast.Node, op token.Token, a string, ta typ, b string, tb
 }
 
 func (c *fctx) expr(sc *scope, e ast.Expr) (string, typ) {
+	if c.fmode {
+		return c.fxTyped(sc, e)
+	}
 	switch x := e.(type) {
 	case *ast.ParenExpr:
 		return c.expr(sc, x.X)
@@ -756,7 +834,11 @@ func (c *fctx) callTranslated(sc *scope, x *ast.CallExpr) (string, *sig) {
 		if _, ok := c.pkg.funcs[f.Name]; !ok {
 			c.fail(x, "call of %s (not a function of package %s; builtins and conversions other than int64/float64 are outside the subset)", f.Name, c.pkg.dir)
 		}
-		s = c.t.function(target{pkg: c.pkg.dir, name: f.Name}, x)
+		if c.fmode {
+			s = c.t.ffunction(ftarget{pkg: c.pkg.dir, name: f.Name}, x)
+		} else {
+			s = c.t.function(target{pkg: c.pkg.dir, name: f.Name}, x)
+		}
 	case *ast.SelectorExpr:
 		dir, ok := c.pkgOf(sc, f.X)
 		if !ok {
@@ -765,14 +847,25 @@ func (c *fctx) callTranslated(sc *scope, x *ast.CallExpr) (string, *sig) {
 		if strings.HasPrefix(dir, "\x00") {
 			c.fail(x, "call of %s (package %s is outside the module)", exprString(x.Fun), strings.TrimPrefix(dir, "\x00"))
 		}
-		s = c.t.function(target{pkg: dir, name: f.Sel.Name}, x)
+		if c.fmode {
+			s = c.t.ffunction(ftarget{pkg: dir, name: f.Sel.Name}, x)
+		} else {
+			s = c.t.function(target{pkg: dir, name: f.Sel.Name}, x)
+		}
 	default:
 		c.fail(x, "call through %s", nodeKind(x.Fun))
+	}
+	if s.nrecv != 0 {
+		c.fail(x, "call of the method %s as a function", exprString(x.Fun))
 	}
 	if len(x.Args) != len(s.params) {
 		c.fail(x, "call of %s with %d arguments (the translated function takes %d)", exprString(x.Fun), len(x.Args), len(s.params))
 	}
 	code := "(" + s.coq
+	if s.libm {
+		c.libm = true
+		code += " " + libmVar
+	}
 	for i, a := range x.Args {
 		ac, ta := c.exprAs(sc, a, s.params[i])
 		_ = ta
@@ -785,6 +878,9 @@ func (c *fctx) callTranslated(sc *scope, x *ast.CallExpr) (string, *sig) {
 func (c *fctx) exprAs(sc *scope, e ast.Expr, want typ) (string, typ) {
 	if want.k == kErr && isNil(sc, e) {
 		return "false", want
+	}
+	if c.fmode {
+		return c.fxAs(sc, e, want)
 	}
 	code, t := c.expr(sc, e)
 	if !same(t, want) {
@@ -885,6 +981,10 @@ func (c *fctx) block(ss []ast.Stmt, sc *scope, k func() string) string {
 		}
 		return out + next()
 	case *ast.IfStmt:
+		if c.fmode && !escapes(x) {
+			// float mode: no branch leaves the statement: one conditional per assigned variable instead of a duplicated continuation
+			return c.phiIf(x, sc) + next()
+		}
 		isc := sc
 		pre := ""
 		if x.Init != nil {
@@ -917,6 +1017,9 @@ func (c *fctx) block(ss []ast.Stmt, sc *scope, k func() string) string {
 		if c.prefix {
 			c.fail(s, "return before the result loop")
 		}
+		if c.partial {
+			c.fail(s, "return inside the statements the extracted value depends on")
+		}
 		return c.ret(x, sc)
 	case *ast.ForStmt:
 		if c.prefix && sc == c.top {
@@ -946,9 +1049,12 @@ func (c *fctx) ret(x *ast.ReturnStmt, sc *scope) string {
 			}
 			rs = append(rs, v.coq)
 		}
-		return tuple(rs)
+		return tuple(append(append([]string{}, c.recvOut...), rs...))
 	}
 	if len(x.Results) == 1 && len(c.results) > 1 {
+		if c.recvOut != nil {
+			c.fail(x, "return of a call from a method with a pointer receiver")
+		}
 		call, ok := unparen(x.Results[0]).(*ast.CallExpr)
 		if !ok {
 			c.fail(x, "return of one expression for %d results", len(c.results))
@@ -969,13 +1075,17 @@ func (c *fctx) ret(x *ast.ReturnStmt, sc *scope) string {
 	}
 	for i, r := range x.Results {
 		if c.results[i].k == kStruct {
+			if c.fmode {
+				rs = append(rs, c.fstructValue(sc, r, c.results[i]))
+				continue
+			}
 			rs = append(rs, c.structLit(sc, r, c.results[i]))
 			continue
 		}
 		code, _ := c.exprAs(sc, r, c.results[i])
 		rs = append(rs, code)
 	}
-	return tuple(rs)
+	return tuple(append(append([]string{}, c.recvOut...), rs...))
 }
 
 // &T{f: e, ...} or T{f: e, ...} with keyed int64 fields -> tuple in declaration order
@@ -1029,6 +1139,11 @@ func (c *fctx) structLit(sc *scope, e ast.Expr, t typ) string {
 }
 
 func (c *fctx) assign(x *ast.AssignStmt, sc *scope) string {
+	if c.fmode {
+		if code, ok := c.fassign(x, sc); ok {
+			return code
+		}
+	}
 	// compound assignment
 	if op, ok := assignOps[x.Tok]; ok {
 		if len(x.Lhs) != 1 || len(x.Rhs) != 1 {
@@ -1794,14 +1909,15 @@ func modulePath(root string) string {
 	return ""
 }
 
-func run(repo, out string) {
+func run(repo, out, outF string) {
 	abs, err := filepath.Abs(repo)
 	if err != nil {
 		failf("%v", err)
 	}
 	repoRoot = abs
 	t := &translator{module: modulePath(abs), pkgs: map[string]*pkgInfo{}, used: map[string]bool{}, constType: map[string]typ{}, constGo: map[string]string{},
-		globals: map[string]string{}, sigs: map[string]*sig{}, inProgress: map[string]bool{}}
+		globals: map[string]string{}, sigs: map[string]*sig{}, inProgress: map[string]bool{},
+		fused: map[string]bool{}, fglobals: map[string]string{}, fsigs: map[string]*sig{}}
 
 	// constants
 	if t.packageConsts(constsPkg, "") == 0 {
@@ -1855,17 +1971,28 @@ func run(repo, out string) {
 	for _, h := range t.hints {
 		fmt.Fprintf(&b, "#[global] Hint Unfold %s : sidgen.\n", h)
 	}
+	// the float file is produced before anything is written: a rejected float kernel leaves both files untouched
+	var textF string
+	if outF != "" {
+		textF = t.runFloat(abs)
+	}
 	if err := os.WriteFile(out, []byte(b.String()), 0o644); err != nil {
 		failf("cannot write %s: %v", out, err)
+	}
+	if outF != "" {
+		if err := os.WriteFile(outF, []byte(textF), 0o644); err != nil {
+			failf("cannot write %s: %v", outF, err)
+		}
 	}
 }
 
 func main() {
 	repo := flag.String("repo", "", "root of the Go source tree")
-	out := flag.String("out", "", "Coq file to write")
+	out := flag.String("out", "", "Coq file to write (integer kernels and constants)")
+	outF := flag.String("outf", "", "Coq file to write (float64 kernels); optional")
 	flag.Parse()
 	if *repo == "" || *out == "" || flag.NArg() != 0 {
-		fmt.Fprintln(os.Stderr, "usage: vtrans -repo <tree> -out <Generated.v>")
+		fmt.Fprintln(os.Stderr, "usage: vtrans -repo <tree> -out <Generated.v> [-outf <GeneratedF.v>]")
 		os.Exit(2)
 	}
 	defer func() {
@@ -1877,5 +2004,5 @@ func main() {
 			panic(r)
 		}
 	}()
-	run(*repo, *out)
+	run(*repo, *out, *outF)
 }
